@@ -13,7 +13,7 @@ import z3
 from .types import *
 from .values import *
 from .interp import (Engine, Env, Closure, ClassV, ModuleV, Builtin, ExcClass, LoopSpec, PyExc, PathEnd, EngineError,
-                     _Return, Ob)
+                     _Return, Ob, assigned_names)
 from . import builtins as B
 
 REPO = os.environ.get('VERIF_REPO', '/repo')
@@ -77,7 +77,10 @@ class LazyModuleEnv(Env):
             for s in st.body:
                 self._index(s)
 
-    def lookup(self, name):
+    def lazy_has(self, name):
+        return name in self.defs and name not in self.busy
+
+    def lazy_get(self, name):
         if name in self.vars:
             return self.vars[name]
         if name in self.defs and name not in self.busy:
@@ -94,9 +97,6 @@ class LazyModuleEnv(Env):
             if name in self.vars:
                 return self.vars[name]
         raise KeyError(name)
-
-    def has(self, name):
-        return name in self.vars or name in self.defs
 
 
 def make_class(eng, node, env):
@@ -273,6 +273,7 @@ def verify(contract, all_contracts=(), timeout_ms=10000, mutate=None, negate_pos
                 spec_globals.vars[sn] = eng.eval_spec(ssrc, spec_globals)
             define_recs(eng, contract.spec_recs, spec_globals)
             env = Env(spec_globals, dict(args))
+            env.vars['__locals__'] = assigned_names(body)
             old_env = Env(spec_globals, {k: eng.snapshot(v) for k, v in args.items()})
             env.vars['__old_env__'] = old_env
             if contract.axioms:
